@@ -359,6 +359,8 @@ class SafeLearner(Learner):
 
             if self._pred_format.endswith('*'):
                 pred = list(pred.values())[0]
+            elif self._pred_format[:2] == 'PM':
+                pred = list(zip(*pred)) #column-major to one pmf per row
 
             if self._pred_format[:2] == 'PM':
                 A, P = list(map(list, zip(*map(self._rng.choicew,actions, pred))))
